@@ -20,7 +20,7 @@ import sys
 
 def canon(v) -> str:
     t = type(v)
-    if t in (int, str, bool, float, type(None)):
+    if t in (int, str, bool, float, type(None), bytes, bytearray):
         return repr(v)
     if t is list:
         return "[" + ", ".join(canon(x) for x in v) + "]"
